@@ -155,6 +155,7 @@ class mm_reader {
                 // line already holds the matrix sizes
                 is.clear(); is.str(line);
                 precondition(is >> n >> m >> nnz, format_error());
+                precondition(n >= 0 && m >= 0, format_error("negative size"));
             }
 
             if (row_beg < 0) row_beg = 0;
@@ -184,6 +185,10 @@ class mm_reader {
                 Val v;
 
                 precondition(is >> i >> j, format_error());
+                precondition(
+                        i >= 1 && static_cast<size_t>(i) <= static_cast<size_t>(n) &&
+                        j >= 1 && static_cast<size_t>(j) <= static_cast<size_t>(m),
+                        format_error("index out of range"));
 
                 i -= 1;
                 j -= 1;
@@ -230,7 +235,7 @@ class mm_reader {
                 Idx beg = ptr[i];
                 Idx end = ptr[i+1];
 
-                amgcl::detail::sort_row(&col[0] + beg, &val[0] + beg, end - beg);
+                amgcl::detail::sort_row(col.data() + beg, val.data() + beg, end - beg);
             }
 
             return std::make_tuple(chunk, m);
